@@ -156,6 +156,9 @@ class FibRun:
             self.bg.append('loop:' + (type(ex).__name__ if ex is not None else str(c.get('message'))[:40]))
         self.loop.errors.clear()
         self.scan_out()
+        if hasattr(self.face, 'overwritten') and self.face.overwritten() and 'sent-buffer-overwritten-after-send' not in self.bg:
+            # seed C10-b2: replies encoded into a scratch buffer of the application that the transport still holds
+            self.bg.append('sent-buffer-overwritten-after-send')
         p = {'now': self.tick(), 'up': bool(self.face.running), 'handled': list(self.handled),
              'wire': list(self.wire), 'rets': list(self.rets), 'natt': self.count_attached(),
              'vnew': sorted(self.vnew), 'bg': len(self.bg), 'bgw': sorted(set(self.bg))}
